@@ -491,10 +491,12 @@ def run(ctx):
     ub_body = []
     ub_owners = []
     k2 = 0
-    for (et, lit) in [('unsigned char', '"\\xff\\x80z"'), ('signed char', '"\\xff\\x80z"'), ('char', '"\\xff\\x80z"'), ('unsigned char', '{"\\xfe"}'), ('unsigned short', 'u"\\xffff\\x8000"'),
+    for (et, lit) in [('char', '{"abc",}'), ('unsigned char', '{"\\xfe\\x01",}'), ('unsigned short', '{u"ab",}'), ('int', '{L"xy",}'), ('char', '{"",}'), ('unsigned char', '"\\xff\\x80z"'), ('signed char', '"\\xff\\x80z"'), ('char', '"\\xff\\x80z"'), ('unsigned char', '{"\\xfe"}'), ('unsigned short', 'u"\\xffff\\x8000"'),
                       ('unsigned int', 'U"\\xffffffff"'), ('int', 'L"\\xffffffff"'), ('unsigned char', 'u8"\\xc3\\xa9"'), ('const unsigned char', '"\\377"'), ('volatile signed char', '"\\200"')]:
         for form in ('static %s ub%d[] = %s;', 'AUTO %s ub%d[] = %s;', 'static struct { int n; %s fam[]; } ub%d = {1, %s};'):
             if 'fam' in form and lit.startswith('{'):
+                continue
+            if lit.endswith(',}') and not form.startswith('static %s ub') and not form.startswith('AUTO'):
                 continue
             d = form % (et, k2, lit)
             acc = 'ub%d.fam' % k2 if 'fam' in form else 'ub%d' % k2
